@@ -332,6 +332,8 @@ fn fold_expr(e: &MExpr) -> MExpr {
         MExpr::Xcr { .. } | MExpr::LitS(_) | MExpr::LabelProp(..) | MExpr::Enum(..) => e.clone(),
         MExpr::Var(MVar::Named(None, n)) if n == "INF" => MExpr::LitF(0x7f800000),
         MExpr::Var(MVar::Named(None, n)) if n == "NAN" => MExpr::LitF(CANON_NAN),
+        MExpr::Var(MVar::Named(None, n)) if n == "true" => MExpr::LitI(1, true, 0),
+        MExpr::Var(MVar::Named(None, n)) if n == "false" => MExpr::LitI(0, true, 0),
         MExpr::Var(_) => e.clone(),
         MExpr::Call(n, ps, args) => MExpr::Call(n.clone(), ps.iter().map(|(k, v)| (k.clone(), fold_expr(v))).collect(), args.iter().map(fold_expr).collect()),
         MExpr::Diff(cs) => MExpr::Diff(cs.iter().map(|c| c.as_ref().map(fold_expr)).collect()),
@@ -339,7 +341,8 @@ fn fold_expr(e: &MExpr) -> MExpr {
         MExpr::LitF(bits) => MExpr::LitF(*bits),
     }
 }
-fn fold_block(b: &MBlock) -> MBlock { b.iter().map(fold_stmt).collect() }
+// NoInstruction is a virtual statement that prints nothing: it is not part of the script
+fn fold_block(b: &MBlock) -> MBlock { b.iter().filter(|s| !(s.kind == MKind::NoInstr)).map(fold_stmt).collect() }
 fn fold_stmt(s: &MStmt) -> MStmt {
     let kind = match &s.kind {
         MKind::Item(i) => MKind::Item(Box::new(fold_item(i))),
@@ -578,12 +581,659 @@ fn probe() {
 }
 impl<T> PR<T> { fn map_ok<U>(self, f: impl FnOnce(T) -> U) -> PR<U> { match self { PR::Ok(x) => PR::Ok(f(x)), PR::Err => PR::Err, PR::Panic(p) => PR::Panic(p) } } }
 
+
+// ---------------------------------------------------------------------------------------------
+// generators
+
+const IDENTS: [&str; 30] = ["a", "b", "x", "y1", "foo", "_t", "count", "Easy", "E", "N", "X", "O4", "H_", "Wide", "Zed", "Lx", "Yy",
+    "i", "REG0", "ins", "radius", "mapfile", "entry", "anim", "ecli", "script", "default", "case", "a_rather_long_identifier_name", "I0"];
+const LABELS: [&str; 6] = ["lab", "end", "loop_1", "L", "start", "case"];
+const BINOPS: [&str; 19] = ["+", "-", "*", "/", "%", "==", "!=", "<", "<=", ">", ">=", "|", "^", "&", "||", "&&", "<<", ">>", ">>>"];
+const PREFIX_OPS: [&str; 3] = ["-", "!", "~"];
+const FN_OPS: [&str; 11] = ["sin", "cos", "tan", "asin", "acos", "atan", "sqrt", "$", "%", "int", "float"];
+const ASSIGN_OPS: [&str; 12] = ["=", "+=", "-=", "*=", "/=", "%=", "|=", "^=", "&=", "<<=", ">>=", ">>>="];
+const PSEUDOS: [&str; 5] = ["pop", "mask", "blob", "arg0", "nargs"];
+const INT_GRID: [i32; 34] = [0, 1, -1, 2, -2, 3, 4, 5, 6, 7, 9, 10, -10, 16, 45, 77, 100, 255, 256, -256, 4096, 32767, -32768, 65535, 65536,
+    0x7fffffff, -0x7fffffff, i32::MIN, 0x40000000, 0x55555555, -0x55555556, 1000000007, 0x12345678, 47];
+const FLOAT_GRID: [u32; 36] = [0x00000000, 0x80000000, 0x3f800000, 0xbf800000, 0x40000000, 0x40400000, 0xc0a00000, 0x3f000000, 0x3eaaaaab,
+    0x7f800000, 0xff800000, 0x7fc00000, 0x7f7fffff, 0xff7fffff, 0x00000001, 0x80000001, 0x007fffff, 0x00800000, 0x4f000000, 0xcf000000,
+    0x4effffff, 0x4b800000, 0x4b800001, 0x3fc00000, 0x40490fdb, 0x5f000000, 0x33800000, 0x41200000, 0xc1200000, 0x40800000, 0x40e00000,
+    0x3dcccccd, 0x501502f9, 0x7fc00001, 0xffc00000, 0x7f800001];
+const STRINGS: [&str; 16] = ["", "a", "hello world", "a\"b", "back\\slash", "line\nbreak", "cr\rlf\n", "nul\0byte", "tab\there", "\u{3042}\u{3044}\u{3046}",
+    "caf\u{e9} \u{1F600}", "\\n is not a newline", "\"", "\\", "ends with backslash\\", "// not a comment /* nor this */"];
+const WIDTHS: [usize; 11] = [1, 2, 3, 5, 8, 13, 20, 40, 80, 100, 200];
+
+type Hist = BTreeMap<&'static str, u64>;
+struct Gen<'a> { rng: &'a mut Rng, hist: &'a mut Hist, defects: bool }
+
+impl<'a> Gen<'a> {
+    fn bump(&mut self, k: &'static str) { *self.hist.entry(k).or_insert(0) += 1; }
+    fn ident(&mut self) -> String { self.rng.pick(&IDENTS).to_string() }
+    fn int_value(&mut self) -> i32 { if self.rng.chance(3, 4) { *self.rng.pick(&INT_GRID) } else { self.rng.next_u64() as i32 } }
+    fn float_bits(&mut self) -> u32 {
+        let b = if self.rng.chance(3, 4) { *self.rng.pick(&FLOAT_GRID) } else { self.rng.next_u64() as u32 };
+        // non-canonical NaNs are finding #11: only generated when defect shapes are wanted
+        if !self.defects && f32::from_bits(b).is_nan() { 0x7fc00000 } else { b }
+    }
+    fn string(&mut self) -> String {
+        if self.rng.chance(2, 3) { return self.rng.pick(&STRINGS).to_string(); }
+        let n = self.rng.below(12);
+        let mut s = String::new();
+        for _ in 0..n {
+            let c = match self.rng.below(12) {
+                0 => '"', 1 => '\\', 2 => '\n', 3 => '\r', 4 => '\0', 5 => '\t', 6 => '\u{3042}', 7 => '\u{e9}', 8 => '\u{1F600}',
+                _ => (0x20 + self.rng.below(0x5f) as u8) as char,
+            };
+            s.push(c);
+        }
+        s
+    }
+    fn var(&mut self) -> MVar {
+        let sg = match self.rng.below(4) { 0 => Some('$'), 1 => Some('%'), _ => None };
+        if self.rng.chance(1, 4) {
+            let r = if self.rng.chance(1, 2) { self.rng.range(-10, 10030) as i32 } else { self.int_value() };
+            MVar::Reg(sg, r)
+        } else { MVar::Named(sg, self.ident()) }
+    }
+    fn lit_int(&mut self) -> MExpr {
+        self.bump("lit_int");
+        MExpr::LitI(self.int_value(), self.rng.chance(2, 3), if self.rng.chance(1, 2) { 0 } else { self.rng.below(4) as u8 })
+    }
+    fn leaf(&mut self) -> MExpr {
+        match self.rng.below(12) {
+            0..=3 => self.lit_int(),
+            4..=5 => { self.bump("lit_float"); MExpr::LitF(self.float_bits()) },
+            6 => { self.bump("lit_string"); MExpr::LitS(self.string()) },
+            7..=9 => { self.bump("var"); MExpr::Var(self.var()) },
+            10 => { self.bump("enum_const"); MExpr::Enum(self.ident(), self.ident()) },
+            _ => { self.bump("label_prop"); MExpr::LabelProp(if self.rng.chance(1, 2) { "offsetof" } else { "timeof" }.into(), self.rng.pick(&LABELS).to_string()) },
+        }
+    }
+    /// operand of a prefix operator: stays inside the printable class unless defect shapes are wanted
+    fn prefix_operand(&mut self, op: &str, depth: u32) -> MExpr {
+        for _ in 0..50 {
+            let x = self.expr(depth);
+            if self.defects || follows_ok(op, &x) { return x; }
+        }
+        MExpr::Var(MVar::Named(None, "a".into()))
+    }
+    fn expr(&mut self, depth: u32) -> MExpr {
+        if depth == 0 || self.rng.chance(1, 5) { return self.leaf(); }
+        let d = depth - 1;
+        match self.rng.below(22) {
+            0..=6 => { self.bump("binop"); let op = self.rng.pick(&BINOPS).to_string(); MExpr::Bin(Box::new(self.expr(d)), op, Box::new(self.expr(d))) },
+            7..=9 => { self.bump("prefix_unop"); let op = self.rng.pick(&PREFIX_OPS).to_string(); let x = self.prefix_operand(&op, d); MExpr::Un(op, Box::new(x)) },
+            10 => { self.bump("nested_unary_minus"); let x = self.prefix_operand("-", d); let inner = MExpr::Un("-".into(), Box::new(x)); MExpr::Un("-".into(), Box::new(inner)) },
+            11..=12 => { self.bump("fn_unop"); let op = self.rng.pick(&FN_OPS).to_string(); MExpr::Un(op, Box::new(self.expr(d))) },
+            13..=14 => { self.bump("ternary"); MExpr::Tern(Box::new(self.expr(d)), Box::new(self.expr(d)), Box::new(self.expr(d))) },
+            15..=16 => {
+                self.bump("diff_switch");
+                let n = 2 + self.rng.below(4) as usize;
+                let mut cs = vec![Some(self.expr(d))];
+                for _ in 1..n { cs.push(if self.rng.chance(1, 3) { self.bump("diff_switch_hole"); None } else { Some(self.expr(d)) }); }
+                MExpr::Diff(cs)
+            },
+            17..=19 => {
+                self.bump("call");
+                let name = if self.rng.chance(1, 2) { MName::Ins(if self.rng.chance(1, 4) { self.rng.below(65536) as u16 } else { self.rng.below(700) as u16 }) }
+                           else { let mut n = self.ident(); if !self.defects && n == "rad" { n = "radius".into(); } MName::Normal(n) };
+                let mut ps = vec![];
+                if self.rng.chance(1, 4) { for _ in 0..(1 + self.rng.below(2)) { self.bump("pseudo_arg"); ps.push((self.rng.pick(&PSEUDOS).to_string(), self.expr(d.min(1)))); } }
+                let nargs = self.rng.below(5) as usize;
+                MExpr::Call(name, ps, (0..nargs).map(|_| self.expr(d)).collect())
+            },
+            20 => { self.bump("xcrement"); MExpr::Xcr { pre: self.rng.chance(1, 2), inc: self.rng.chance(1, 2), var: self.var() } },
+            _ => self.leaf(),
+        }
+    }
+    fn jump(&mut self) -> MJump {
+        if self.rng.chance(1, 4) { MJump::Break }
+        else { MJump::Goto(self.rng.pick(&LABELS).to_string(), if self.rng.chance(1, 2) { Some(self.int_value()) } else { None }) }
+    }
+    fn block(&mut self, depth: u32) -> MBlock {
+        let n = self.rng.below(4) as usize;
+        (0..n).map(|_| self.stmt(depth)).collect()
+    }
+    fn decl_var(&mut self) -> MVar { MVar::Named(None, self.ident()) }
+    fn stmt(&mut self, depth: u32) -> MStmt {
+        let ed = 1 + self.rng.below(3) as u32;
+        let c = if depth == 0 { self.rng.below(12) } else { self.rng.below(24) };
+        let kind = match c {
+            0..=2 => { self.bump("s_assign"); MKind::Assign(self.var(), self.rng.pick(&ASSIGN_OPS).to_string(), self.expr(ed)) },
+            3..=4 => { self.bump("s_expr"); MKind::Expr(self.expr(ed)) },
+            5 => { self.bump("s_jump"); MKind::Jump(self.jump()) },
+            6 => { self.bump("s_return"); MKind::Return(if self.rng.chance(1, 2) { Some(self.expr(ed)) } else { None }) },
+            7 => { self.bump("s_cond_jump"); MKind::CondJump(if self.rng.chance(1, 2) { "if" } else { "unless" }.into(), self.expr(ed), self.jump()) },
+            8 => {
+                self.bump("s_decl");
+                let n = 1 + self.rng.below(3) as usize;
+                MKind::Decl(self.rng.pick(&["int", "float", "var"]).to_string(), (0..n).map(|_| (self.decl_var(), if self.rng.chance(2, 3) { Some(self.expr(ed)) } else { None })).collect())
+            },
+            9 => match self.rng.below(4) {
+                0 => { self.bump("s_label"); MKind::Label(self.rng.pick(&LABELS).to_string()) },
+                1 => { self.bump("s_interrupt"); MKind::Interrupt(self.expr(1)) },
+                2 => { self.bump("s_abs_time"); MKind::AbsTime(self.int_value()) },
+                _ => { self.bump("s_rel_time"); MKind::RelTime(self.expr(1), if self.rng.chance(1, 2) { Some(self.int_value()) } else { None }) },
+            },
+            10 => { self.bump("s_const_item"); MKind::Item(Box::new(self.const_item())) },
+            11 => if self.rng.chance(1, 3) { self.bump("s_noinstr"); MKind::NoInstr } else { self.bump("s_callsub"); self.callsub() },
+            12..=13 => { self.bump("s_loop"); MKind::Loop(self.block(depth - 1)) },
+            14..=16 => {
+                self.bump("s_cond_chain");
+                let n = 1 + self.rng.below(3) as usize;
+                let cbs = (0..n).map(|_| (if self.rng.chance(2, 3) { "if" } else { "unless" }.to_string(), self.expr(ed), self.block(depth - 1))).collect();
+                MKind::CondChain(cbs, if self.rng.chance(1, 2) { Some(self.block(depth - 1)) } else { None })
+            },
+            17..=18 => { self.bump("s_while"); MKind::While { do_: self.rng.chance(1, 2), cond: self.expr(ed), block: self.block(depth - 1) } },
+            19..=20 => { self.bump("s_times"); MKind::Times { clobber: if self.rng.chance(1, 2) { Some(self.var()) } else { None }, count: self.expr(ed), block: self.block(depth - 1) } },
+            21 => { self.bump("s_block"); MKind::Block(self.block(depth - 1)) },
+            22 => { self.bump("s_func_item"); MKind::Item(Box::new(self.func_item(depth - 1))) },
+            _ => { self.bump("s_assign"); MKind::Assign(self.var(), "=".into(), self.expr(ed + 1)) },
+        };
+        let physical = !matches!(kind, MKind::Item(_) | MKind::Label(_) | MKind::Interrupt(_) | MKind::AbsTime(_) | MKind::RelTime(..) | MKind::NoInstr)
+            || matches!(kind, MKind::Interrupt(_));
+        let diff_label = if physical && self.rng.chance(1, 6) { self.bump("diff_label"); Some(self.rng.pick(&["E", "NH", "ENHL", "7", "a\"b", ""]).to_string()) } else { None };
+        MStmt { diff_label, kind }
+    }
+    fn callsub(&mut self) -> MKind {
+        let n = self.rng.below(3) as usize;
+        let at = self.rng.chance(1, 2);
+        let async_ = if !at || self.rng.chance(1, 2) { Some(if self.rng.chance(1, 2) { Some(self.expr(1)) } else { None }) } else { None };
+        MKind::CallSub { at, async_, func: self.ident(), args: (0..n).map(|_| self.expr(1)).collect() }
+    }
+    fn const_item(&mut self) -> MItem {
+        let n = 1 + self.rng.below(3) as usize;
+        MItem::Const { ty: self.rng.pick(&["int", "float", "string"]).to_string(), vars: (0..n).map(|_| (self.decl_var(), self.expr(2))).collect() }
+    }
+    fn func_item(&mut self, depth: u32) -> MItem {
+        let n = self.rng.below(4) as usize;
+        MItem::Func {
+            qual: match self.rng.below(3) { 0 => Some("const".into()), 1 => Some("inline".into()), _ => None },
+            ty: self.rng.pick(&["int", "float", "string", "void"]).to_string(), ident: self.ident(),
+            params: (0..n).map(|_| (self.rng.pick(&["int", "float", "var"]).to_string(), if self.rng.chance(3, 4) { Some(self.ident()) } else { None })).collect(),
+            code: if self.rng.chance(3, 4) { Some(self.block(depth)) } else { None },
+        }
+    }
+    fn meta(&mut self, depth: u32) -> MMeta {
+        if depth == 0 || self.rng.chance(1, 3) { self.bump("m_scalar"); return MMeta::Scalar(self.expr(1)); }
+        match self.rng.below(3) {
+            0 => { self.bump("m_object"); MMeta::Object(self.fields(depth - 1)) },
+            1 => { self.bump("m_array"); let n = self.rng.below(5) as usize; MMeta::Array((0..n).map(|_| self.meta(depth - 1)).collect()) },
+            _ => { self.bump("m_variant"); MMeta::Variant(self.ident(), self.fields(depth - 1)) },
+        }
+    }
+    fn fields(&mut self, depth: u32) -> Vec<(String, MMeta)> {
+        let n = self.rng.below(5) as usize;
+        (0..n).map(|k| {
+            let key = if self.rng.chance(1, 5) { self.bump("m_numeric_key"); format!("{}", k * 7 + self.rng.below(7) as usize) } else { format!("{}{}", self.ident(), k) };
+            (key, self.meta(depth))
+        }).collect()
+    }
+    fn item(&mut self) -> MItem {
+        match self.rng.below(6) {
+            0..=1 => { self.bump("i_script"); MItem::Script { number: if self.rng.chance(1, 3) { Some(self.int_value()) } else { None }, ident: self.ident(), code: self.block(2) } },
+            2 => { self.bump("i_func"); self.func_item(2) },
+            3..=4 => { self.bump("i_meta"); MItem::Meta { kw: if self.rng.chance(1, 2) { "entry" } else { "meta" }.into(), fields: self.fields(2) } },
+            _ => { self.bump("i_const"); self.const_item() },
+        }
+    }
+    fn file(&mut self) -> MFile {
+        let nm = if self.rng.chance(1, 3) { 1 + self.rng.below(2) as usize } else { 0 };
+        let ni = if self.rng.chance(1, 4) { 1 } else { 0 };
+        let n = self.rng.below(4) as usize;
+        MFile { mapfiles: (0..nm).map(|_| self.string()).collect(), image_sources: (0..ni).map(|_| self.string()).collect(), items: (0..n).map(|_| self.item()).collect() }
+    }
+}
+
+// ---------------------------------------------------------------------------------------------
+// the printable class on the mirror (mirrors Spec/Fmt.v pr_expr; the Coq side recomputes it) and
+// the classes of the known defects
+
+fn first_text_char(e: &MExpr) -> Option<char> {
+    print_with(&to_expr(e), 1000).ok().and_then(|t| t.chars().next())
+}
+fn follows_ok(op: &str, x: &MExpr) -> bool {
+    match first_text_char(x) {
+        Some(c) => c != '-' && (op != "!" || !("-*ENHLWXYZO4567=".contains(c))),
+        None => false,
+    }
+}
+fn is_kw(s: &str) -> bool {
+    ["anim", "ecli", "meta", "sub", "script", "entry", "var", "int", "float", "string", "void", "const", "inline", "insdef", "return", "goto", "loop", "if", "else",
+     "unless", "do", "while", "times", "break", "switch", "case", "default", "interrupt", "async", "global", "pragma", "mapfile", "image_source", "offsetof",
+     "timeof", "sin", "cos", "tan", "asin", "acos", "atan", "sqrt", "_S", "_f", "REG"].contains(&s)
+}
+fn valid_ident(s: &str) -> bool {
+    let mut cs = s.chars();
+    match cs.next() { Some(c) if c.is_ascii_alphabetic() || c == '_' => {}, _ => return false }
+    s.chars().all(|c| c.is_ascii_alphanumeric() || c == '_')
+        && (!is_kw(s) || ["mapfile", "entry", "anim", "ecli", "script", "default", "case"].contains(&s))
+        && !s.starts_with("ins_")
+}
+/// class of the known defect an expression falls into, if any
+fn defect_class(e: &MExpr) -> Option<&'static str> {
+    let sub = |xs: Vec<&MExpr>| xs.into_iter().filter_map(defect_class).next();
+    match e {
+        MExpr::Tern(a, b, c) => sub(vec![a, b, c]),
+        MExpr::Bin(a, _, b) => sub(vec![a, b]),
+        MExpr::Un(op, x) => {
+            if PREFIX_OPS.contains(&op.as_str()) {
+                match first_text_char(x) {
+                    Some('-') if op == "-" => return Some("c08-glue:minus-minus"),
+                    Some(c) if op == "!" && "-*ENHLWXYZO4567=".contains(c) => return Some("c08-glue:not-difficulty"),
+                    Some('-') => return Some("c08-unop-negative-literal"),
+                    _ => {},
+                }
+            }
+            defect_class(x)
+        },
+        MExpr::Call(n, ps, args) => {
+            if let MName::Normal(s) = n { if s == "rad" { return Some("c08-rad-call"); } }
+            sub(ps.iter().map(|p| &p.1).chain(args.iter()).collect())
+        },
+        MExpr::Diff(cs) => sub(cs.iter().flatten().collect()),
+        MExpr::LitF(b) if f32::from_bits(*b).is_nan() && *b != CANON_NAN => Some("c08-nan-payload"),
+        _ => None,
+    }
+}
+fn pr_var(v: &MVar) -> bool { match v { MVar::Named(_, n) => valid_ident(n), MVar::Reg(..) => true } }
+fn pr_expr(e: &MExpr) -> bool {
+    match e {
+        MExpr::Tern(a, b, c) => pr_expr(a) && pr_expr(b) && pr_expr(c),
+        MExpr::Bin(a, _, b) => pr_expr(a) && pr_expr(b),
+        MExpr::Un(op, x) => pr_expr(x) && (!PREFIX_OPS.contains(&op.as_str()) || follows_ok(op, x)),
+        MExpr::Xcr { var, .. } => pr_var(var),
+        MExpr::Var(v) => pr_var(v),
+        MExpr::Call(n, ps, args) => (match n { MName::Normal(s) => valid_ident(s) && s != "rad", MName::Ins(_) => true }) && ps.iter().all(|p| pr_expr(&p.1)) && args.iter().all(pr_expr),
+        MExpr::Diff(cs) => cs.len() >= 2 && cs[0].is_some() && cs.iter().flatten().all(pr_expr),
+        MExpr::LabelProp(_, l) => valid_ident(l),
+        MExpr::Enum(a, b) => valid_ident(a) && valid_ident(b),
+        _ => true,
+    }
+}
+fn stmt_exprs<'a>(s: &'a MStmt, out: &mut Vec<&'a MExpr>) {
+    match &s.kind {
+        MKind::Item(i) => item_exprs(i, out),
+        MKind::Return(v) => out.extend(v.iter()),
+        MKind::CondJump(_, c, _) => out.push(c),
+        MKind::Loop(b) | MKind::Block(b) => for s in b { stmt_exprs(s, out) },
+        MKind::CondChain(cbs, els) => { for (_, c, b) in cbs { out.push(c); for s in b { stmt_exprs(s, out) } } for s in els.iter().flatten() { stmt_exprs(s, out) } },
+        MKind::While { cond, block, .. } => { out.push(cond); for s in block { stmt_exprs(s, out) } },
+        MKind::Times { count, block, .. } => { out.push(count); for s in block { stmt_exprs(s, out) } },
+        MKind::Expr(e) | MKind::Assign(_, _, e) | MKind::Interrupt(e) | MKind::RelTime(e, _) => out.push(e),
+        MKind::Decl(_, vars) => for (_, e) in vars { out.extend(e.iter()) },
+        MKind::CallSub { async_, args, .. } => { out.extend(async_.iter().flatten()); out.extend(args.iter()) },
+        MKind::Jump(_) | MKind::Label(_) | MKind::AbsTime(_) | MKind::NoInstr => {},
+    }
+}
+fn meta_exprs<'a>(m: &'a MMeta, out: &mut Vec<&'a MExpr>) {
+    match m {
+        MMeta::Scalar(e) => out.push(e),
+        MMeta::Object(fs) | MMeta::Variant(_, fs) => for (_, v) in fs { meta_exprs(v, out) },
+        MMeta::Array(xs) => for x in xs { meta_exprs(x, out) },
+    }
+}
+fn item_exprs<'a>(i: &'a MItem, out: &mut Vec<&'a MExpr>) {
+    match i {
+        MItem::Func { code, .. } => for s in code.iter().flatten() { stmt_exprs(s, out) },
+        MItem::Script { code, .. } => for s in code { stmt_exprs(s, out) },
+        MItem::Meta { fields, .. } => for (_, v) in fields { meta_exprs(v, out) },
+        MItem::Const { vars, .. } => for (_, e) in vars { out.push(e) },
+    }
+}
+fn has_callsub(s: &MStmt) -> bool {
+    match &s.kind {
+        MKind::CallSub { .. } => true,
+        MKind::Item(i) => item_has_callsub(i),
+        MKind::Loop(b) | MKind::Block(b) => b.iter().any(has_callsub),
+        MKind::CondChain(cbs, els) => cbs.iter().any(|(_, _, b)| b.iter().any(has_callsub)) || els.iter().flatten().any(has_callsub),
+        MKind::While { block, .. } | MKind::Times { block, .. } => block.iter().any(has_callsub),
+        _ => false,
+    }
+}
+fn item_has_callsub(i: &MItem) -> bool {
+    match i { MItem::Func { code, .. } => code.iter().flatten().any(has_callsub), MItem::Script { code, .. } => code.iter().any(has_callsub), _ => false }
+}
+
+// ---------------------------------------------------------------------------------------------
+// oracle
+
+fn float_tab(exprs: &[&MExpr]) -> String {
+    let mut t = BTreeMap::new();
+    for e in exprs { float_table_expr(e, &mut t); }
+    // the model asks for the Display of the absolute value of finite floats
+    let mut abs = BTreeMap::new();
+    for (b, _) in t { let a = b & 0x7fffffff; if a < 0x7f800000 { abs.insert(a, rust_float_display(a)); } }
+    cftab(&abs)
+}
+/// bits of every FLOAT / FLOAT_RAD token of a text, computed the way LitFloatUnsigned does
+fn float_token_tab(text: &str) -> String {
+    let mut out: BTreeMap<String, u32> = BTreeMap::new();
+    let _ = catch(|| {
+        for r in Lexer::new(SourceStr::from_full_source(None, text)) {
+            match r {
+                Ok((_, Token::LitFloat(s), _)) => { let t = s.trim_end_matches(|c| c == 'f' || c == 'F'); if let Ok(x) = t.parse::<f32>() { out.insert(s.to_string(), x.to_bits()); } },
+                Ok((_, Token::LitRad(s), _)) => { let t = &s[4..s.len() - 1]; let t = t.trim_end_matches(|c| c == 'f' || c == 'F'); if let Ok(x) = t.parse::<f32>() { out.insert(s.to_string(), x.to_radians().to_bits()); } },
+                Ok(_) => {},
+                Err(_) => break,
+            }
+        }
+    });
+    format!("[{}]", out.iter().map(|(k, v)| format!("({}, {})", cs(k), v)).collect::<Vec<_>>().join("; "))
+}
+fn one_line(s: &str) -> String { s.replace('\\', "\\\\").replace('\n', "\\n").replace('\t', "\\t").replace('\r', "\\r") }
+fn oracle_fail(class: &str, what: &str, input: &str, text: &str) {
+    println!("ORACLE-FAIL\t{}\t{}\t{}\t{}", class, what, one_line(input), one_line(text));
+}
+
+/// format -> parse -> compare after sign folding; idempotence. Returns whether the round trip held.
+fn oracle_expr(e: &MExpr, sup: bool, w: usize, text: &str) -> bool {
+    let known = defect_class(e);
+    let class = |generic: &'static str| known.unwrap_or(generic);
+    let input = format!("sup={} width={} {:?}", sup, w, e);
+    match parse_expr(text) {
+        PR::Ok(back) => {
+            if fold_expr(&back) != fold_expr(e) { oracle_fail(class("c08-roundtrip:different-ast"), "the printed expression parses to a different expression", &input, text); return false; }
+            // text idempotence: for scripts as the parser builds them the round trip is exact
+            if in_parser_form(e) {
+                if &back != e { oracle_fail(class("c08-idempotence"), "an expression in parser form does not parse back to itself", &input, text); return false; }
+                let t2 = if sup { print_with(&Sup(&to_expr(&back)), w).ok() } else { print_with(&to_expr(&back), w).ok() };
+                if t2.as_deref() != Some(text) { oracle_fail(class("c08-idempotence"), "printing the re-parsed expression gives a different text", &input, &t2.unwrap_or_default()); return false; }
+            }
+            true
+        },
+        PR::Err => { oracle_fail(class("c08-roundtrip:parse-error"), "the printed expression does not parse", &input, text); false },
+        PR::Panic(p) => { oracle_fail(class("c08-roundtrip:parse-panic"), &format!("the parser panics on the printed expression: {}", p), &input, text); false },
+    }
+}
+/// an expression as the parser builds them: no negative literals, default int format, INF/NAN/true/false as names
+fn in_parser_form(e: &MExpr) -> bool {
+    match e {
+        MExpr::Tern(a, b, c) => in_parser_form(a) && in_parser_form(b) && in_parser_form(c),
+        MExpr::Bin(a, _, b) => in_parser_form(a) && in_parser_form(b),
+        MExpr::Un(_, x) => in_parser_form(x),
+        MExpr::Call(_, ps, args) => ps.iter().all(|p| in_parser_form(&p.1)) && args.iter().all(in_parser_form),
+        MExpr::Diff(cs) => cs.iter().flatten().all(in_parser_form),
+        MExpr::LitI(v, s, r) => *s && *r == 0 && *v >= 0,
+        MExpr::LitF(b) => *b < 0x7f800000,
+        _ => true,
+    }
+}
+
+// ---------------------------------------------------------------------------------------------
+// modes
+
+fn cbool(b: bool) -> &'static str { if b { "true" } else { "false" } }
+fn ctext(r: &Result<String, String>) -> String {
+    match r { Ok(t) => format!("(IOk {})", cs(t)), Err(m) if m.starts_with("panic") => "IPanic".into(), Err(_) => "IErr".into() }
+}
+
+fn lits(rng: &mut Rng, extra: usize) {
+    let mut hist = Hist::new();
+    let mut vals: Vec<i32> = INT_GRID.to_vec();
+    for _ in 0..extra { vals.push(rng.next_u64() as i32); vals.push((rng.next_u64() % 4096) as i32 - 2048); }
+    for signed in [true, false] { for radix in 0..4u8 { for &v in &vals {
+        let e = MExpr::LitI(v, signed, radix);
+        match print_with(&to_expr(&e), 100) {
+            Ok(text) => {
+                println!("INT\tKInt {} {} {}\t{}", cfmt(signed, radix), z(v as i64), cs(&text), one_line(&text));
+                *hist.entry("int_literal").or_insert(0) += 1;
+                match parse_expr(&text) {
+                    PR::Ok(back) if fold_expr(&back) == MExpr::LitI(v, true, 0) => {},
+                    other => oracle_fail("c08-int-roundtrip", &format!("integer literal does not read back: {:?}", other), &format!("{:?}", e), &text),
+                }
+            },
+            Err(m) => oracle_fail("c08-print-fail", &m, &format!("{:?}", e), ""),
+        }
+    }}}
+    let mut strs: Vec<String> = STRINGS.iter().map(|s| s.to_string()).collect();
+    { let mut g = Gen { rng, hist: &mut hist, defects: false }; for _ in 0..(extra * 2) { strs.push(g.string()); } }
+    for st in &strs {
+        let e = MExpr::LitS(st.clone());
+        match print_with(&to_expr(&e), 100) {
+            Ok(text) => {
+                println!("STR\tKStr {} {}\t{}", cs(st), cs(&text), one_line(&text));
+                *hist.entry("string_literal").or_insert(0) += 1;
+                match parse_expr(&text) { PR::Ok(MExpr::LitS(b)) if &b == st => {}, other => oracle_fail("c08-string-roundtrip", &format!("string literal does not read back: {:?}", other), &format!("{:?}", st), &text) }
+                // the dedicated LitString entry point too
+                match parse_as::<ast::LitString>(&text) { PR::Ok(l) if &l.string == st => {}, _ => oracle_fail("c08-string-roundtrip", "LitString::parse differs", &format!("{:?}", st), &text) }
+            },
+            Err(m) => oracle_fail("c08-print-fail", &m, &format!("{:?}", st), ""),
+        }
+    }
+    println!("STATS\thist={:?}", hist);
+}
+
+/// the Section hypothesis about Rust's f32 Display / parse, swept over structured bit patterns, and the
+/// float literal round trip through the formatter and the parser
+fn floats(rng: &mut Rng, n: usize, through_parser_every: usize) {
+    let mut hist = Hist::new();
+    let mut pats: Vec<u32> = FLOAT_GRID.to_vec();
+    let mants: [u32; 10] = [0, 1, 2, 0x7fffff, 0x7ffffe, 0x400000, 0x400001, 0x3fffff, 0x555555, 0x2aaaaa];
+    for exp in 0..=255u32 { for &m in &mants { for sign in [0u32, 1] { pats.push(sign << 31 | exp << 23 | m); } } }
+    while pats.len() < n { pats.push(rng.next_u64() as u32); }
+    let mut k = 0usize;
+    for &b in &pats {
+        let x = f32::from_bits(b);
+        let cls = if x.is_nan() { "f_nan" } else if x.is_infinite() { "f_inf" } else if b & 0x7fffffff == 0 { "f_zero" } else if b & 0x7f800000 == 0 { "f_subnormal" } else { "f_normal" };
+        *hist.entry(cls).or_insert(0) += 1;
+        if x.is_finite() {
+            // hypothesis fd_shape: Display of |x| is digits or digits.digits; hypothesis fd_parse: it parses back to |x|
+            let a = f32::from_bits(b & 0x7fffffff);
+            let t = format!("{}", a);
+            let mut parts = t.splitn(2, '.');
+            let ip = parts.next().unwrap(); let fp = parts.next();
+            let shape = !ip.is_empty() && ip.bytes().all(|c| c.is_ascii_digit()) && fp.map_or(true, |f| !f.is_empty() && f.bytes().all(|c| c.is_ascii_digit()));
+            let t2 = if t.contains('.') { t.clone() } else { format!("{}.0", t) };
+            let back = t2.parse::<f32>().map(|y| y.to_bits());
+            if !shape || back != Ok(a.to_bits()) || format!("{}", x) != format!("{}{}", if b >> 31 == 1 { "-" } else { "" }, t) {
+                oracle_fail("c08-float-hypothesis", "Rust's f32 Display/parse does not satisfy the section hypothesis", &format!("bits {:#x}", b), &t);
+            }
+        }
+        k += 1;
+        if k % through_parser_every == 0 || k <= 600 {
+            let e = MExpr::LitF(b);
+            match print_with(&to_expr(&e), 100) {
+                Ok(text) => {
+                    let rt = oracle_expr(&e, false, 100, &text);
+                    println!("EXPR\tKExpr {} false 100%nat {} (IOk {}) {}\t{}", float_tab(&[&e]), cexpr(&e), cs(&text), cbool(rt), one_line(&text));
+                },
+                Err(m) => oracle_fail("c08-print-fail", &m, &format!("{:?}", e), ""),
+            }
+        }
+    }
+    println!("STATS\tpatterns={}\thist={:?}", pats.len(), hist);
+}
+
+fn pick_widths(rng: &mut Rng, all: bool) -> Vec<usize> {
+    if all { (1..=200).collect() } else { WIDTHS.to_vec() }
+}
+
+fn exprs(rng: &mut Rng, n: usize, all_widths: bool, coq_widths: usize) {
+    let mut hist = Hist::new();
+    let mut ndefect = 0u64;
+    for i in 0..n {
+        let defects = i % 10 == 9;
+        let e = { let mut g = Gen { rng, hist: &mut hist, defects }; let d = 1 + g.rng.below(4) as u32; g.expr(d) };
+        if defect_class(&e).is_some() { ndefect += 1; }
+        let a = to_expr(&e);
+        let widths = pick_widths(rng, all_widths);
+        let sup = rng.chance(1, 2);
+        // the widths whose cases go to the model: the widest, and a few random ones
+        let mut chosen: Vec<usize> = vec![200];
+        for _ in 1..coq_widths { chosen.push(*rng.pick(&widths)); }
+        let mut seen_texts: Vec<(String, bool)> = vec![];
+        for &w in &widths {
+            let text = if sup { print_with(&Sup(&a), w) } else { print_with(&a, w) };
+            match &text {
+                Ok(t) => {
+                    // the oracle runs once per distinct text
+                    let rt = match seen_texts.iter().position(|(x, _)| x == t) {
+                        Some(k) => seen_texts[k].1,
+                        None => { let r = oracle_expr(&e, sup, w, t); seen_texts.push((t.clone(), r)); r },
+                    };
+                    if chosen.contains(&w) {
+                        println!("EXPR\tKExpr {} {} {}%nat {} (IOk {}) {}\t{}", float_tab(&[&e]), cbool(sup), w, cexpr(&e), cs(t), cbool(rt), one_line(t));
+                        println!("PARSE\tKParse {} {} {}\t{}", float_token_tab(t), cs(t), cpr(&parse_expr(t), cexpr), one_line(t));
+                    }
+                },
+                Err(m) => oracle_fail("c08-print-fail", m, &format!("width={} {:?}", w, e), ""),
+            }
+        }
+    }
+    println!("STATS\texprs={}\twith_defect_shape={}\thist={:?}", n, ndefect, hist);
+}
+
+enum Top { Stmt(MStmt), Meta(MMeta), File(MFile) }
+
+fn stmts(rng: &mut Rng, n: usize, all_widths: bool, coq_widths: usize) {
+    let mut hist = Hist::new();
+    for i in 0..n {
+        let top = {
+            let mut g = Gen { rng, hist: &mut hist, defects: false };
+            match i % 5 { 0 | 1 | 2 => Top::Stmt({ let d = g.rng.below(3) as u32; let mut s = g.stmt(d); while s.kind == MKind::NoInstr { s = g.stmt(d); } s }), 3 => Top::Meta({ let d = 1 + g.rng.below(3) as u32; g.meta(d) }), _ => Top::File(g.file()) }
+        };
+        let mut es: Vec<&MExpr> = vec![];
+        let (callsub, what) = match &top {
+            Top::Stmt(s) => { stmt_exprs(s, &mut es); (has_callsub(s), "statement") },
+            Top::Meta(m) => { meta_exprs(m, &mut es); (false, "meta") },
+            Top::File(f) => { for it in &f.items { item_exprs(it, &mut es); } (f.items.iter().any(item_has_callsub), "file") },
+        };
+        let cert = es.iter().all(|e| pr_expr(e));
+        let known: Option<&'static str> = if callsub { Some("c08-callsub") } else { es.iter().filter_map(|e| defect_class(e)).next() };
+        let ftab = float_tab(&es);
+        let widths = pick_widths(rng, all_widths);
+        let mut chosen: Vec<usize> = vec![200];
+        for _ in 1..coq_widths { chosen.push(*rng.pick(&widths)); }
+        let mut seen_texts: Vec<String> = vec![];
+        for &w in &widths {
+            let text = match &top { Top::Stmt(s) => print_with(&to_stmt(s), w), Top::Meta(m) => print_with(&to_meta(m), w), Top::File(f) => print_with(&to_file(f), w) };
+            let t = match &text { Ok(t) => t.clone(), Err(m) => {
+                let input = format!("width={} {}", w, match &top { Top::Stmt(s) => format!("{:?}", s), Top::Meta(m) => format!("{:?}", m), Top::File(f) => format!("{:?}", f) });
+                oracle_fail(if m.contains("line break in label") { "c08-label-linebreak" } else { "c08-print-fail" }, m, &input, "");
+                if chosen.contains(&w) {
+                    match &top {
+                        Top::Stmt(s) => println!("STMT\tKStmt {} {}%nat {} IPanic {}\t", ftab, w, cstmt(s), cbool(cert)),
+                        Top::Meta(m) => println!("META\tKMeta {} {}%nat {} IPanic {}\t", ftab, w, cmeta(m), cbool(cert)),
+                        Top::File(f) => println!("FILE\tKFile {} {}%nat {} IPanic {}\t", ftab, w, cfile(f), cbool(cert)),
+                    }
+                }
+                continue;
+            } };
+            let emit = |t: &str| match &top {
+                Top::Stmt(s) => println!("STMT\tKStmt {} {}%nat {} (IOk {}) {}\t{}", ftab, w, cstmt(s), cs(t), cbool(cert), one_line(t)),
+                Top::Meta(m) => println!("META\tKMeta {} {}%nat {} (IOk {}) {}\t{}", ftab, w, cmeta(m), cs(t), cbool(cert), one_line(t)),
+                Top::File(f) => println!("FILE\tKFile {} {}%nat {} (IOk {}) {}\t{}", ftab, w, cfile(f), cs(t), cbool(cert), one_line(t)),
+            };
+            if chosen.contains(&w) { emit(&t); }
+            if seen_texts.contains(&t) { continue; }
+            seen_texts.push(t.clone());
+            // oracle: parse back, compare after sign folding, re-print is stable
+            let input = format!("width={} {}", w, match &top { Top::Stmt(s) => format!("{:?}", s), Top::Meta(m) => format!("{:?}", m), Top::File(f) => format!("{:?}", f) });
+            let ok = match &top {
+                Top::Stmt(s) => match parse_stmt(&t) { PR::Ok(b) => if fold_stmt(&b) == fold_stmt(s) { Ok(print_with(&to_stmt(&b), w)) } else { Err("different-ast".to_string()) }, PR::Err => Err("parse-error".into()), PR::Panic(p) => Err(format!("parse-panic: {}", p)) },
+                Top::Meta(m) => match parse_meta(&t) { PR::Ok(b) => if fold_meta(&b) == fold_meta(m) { Ok(print_with(&to_meta(&b), w)) } else { Err("different-ast".to_string()) }, PR::Err => Err("parse-error".into()), PR::Panic(p) => Err(format!("parse-panic: {}", p)) },
+                Top::File(f) => match parse_file(&t) { PR::Ok(b) => if fold_file(&b) == fold_file(f) { Ok(print_with(&to_file(&b), w)) } else { Err("different-ast".to_string()) }, PR::Err => Err("parse-error".into()), PR::Panic(p) => Err(format!("parse-panic: {}", p)) },
+            };
+            match ok {
+                Ok(Ok(t2)) => {
+                    if es.iter().all(|e| in_parser_form(e)) && !t.contains("//") && t2 != t { oracle_fail(known.unwrap_or("c08-idempotence"), "printing the re-parsed script gives a different text", &input, &t2); }
+                },
+                Ok(Err(m)) => oracle_fail("c08-print-fail", &m, &input, &t),
+                Err(why) => oracle_fail(known.unwrap_or(match why.as_str() { "different-ast" => "c08-roundtrip:different-ast", "parse-error" => "c08-roundtrip:parse-error", _ => "c08-roundtrip:parse-panic" }),
+                                        &format!("the printed {} does not read back: {}", what, why), &input, &t),
+            }
+        }
+    }
+    println!("STATS\ttops={}\thist={:?}", n, hist);
+}
+
+const SOUP: [&str; 96] = [",", "?", ":", ";", "[", "]", "{", "}", "(", ")", "@", "...", ".", "=", "+", "-", "*", "/", "%", "^", "|", "&", "~", "+=", "-=", "*=", "/=",
+    "%=", "^=", "|=", "&=", "==", "!=", "<", "<=", ">", ">=", "<<", ">>", ">>>", "<<=", ">>=", ">>>=", "!", "||", "&&", "--", "++", "$", "#",
+    "int", "float", "if", "sin", "REG", "_S", "_f", "offsetof", "case", "intx", "ins_5", "ins_", "ins_x9", "rad", "rad(", "rad(5)", "rad(-1.5f)", "rad(2.", "x", "E", "X4", "_", "a1",
+    "0", "7", "45", "007", "1.5", "2.f", "3f", "1.", "0x1F", "0X", "0b101", "0b2", "4294967296", "\"s\"", "\"a\\\"b\"", "\"\\", "\"", "!E", "!45", "!-*", "//c", "/*c*/", "/*"];
+
+fn soup(rng: &mut Rng, n: usize) {
+    let mut hist = Hist::new();
+    for _ in 0..n {
+        let k = 1 + rng.below(8);
+        let mut t = String::new();
+        for _ in 0..k {
+            if rng.chance(1, 12) { t.push((0x21 + rng.below(0x5e) as u8) as char); } else { t.push_str(*rng.pick(&SOUP)); }
+            match rng.below(6) { 0 | 1 => t.push(' '), 2 => t.push('\n'), 3 => t.push_str("\t\r"), _ => {} }
+        }
+        let r = lex_real(&t);
+        *hist.entry(match &r { PR::Ok(_) => "lex_ok", PR::Err => "lex_error", PR::Panic(_) => "lex_panic" }).or_insert(0) += 1;
+        if let PR::Panic(p) = &r { oracle_fail("c08-lexer-panic", p, &t, &t); }
+        println!("LEX\tKLex {} {}\t{}", cs(&t), cpr(&r, |v| format!("[{}]", v.join("; "))), one_line(&t));
+    }
+    println!("STATS\tsoups={}\thist={:?}", n, hist);
+}
+
+fn mutate(rng: &mut Rng, n: usize) {
+    let mut hist = Hist::new();
+    let mut h2 = Hist::new();
+    for _ in 0..n {
+        let e = { let mut g = Gen { rng, hist: &mut h2, defects: true }; let d = 1 + g.rng.below(3) as u32; g.expr(d) };
+        let mut t = match print_with(&to_expr(&e), 60) { Ok(t) => t, Err(_) => continue };
+        let m = rng.below(4);
+        for _ in 0..m {
+            let bytes: Vec<char> = t.chars().collect();
+            if bytes.is_empty() { break; }
+            let pos = rng.below(bytes.len() as u64) as usize;
+            let mut out: String = bytes[..pos].iter().collect();
+            match rng.below(5) {
+                0 => { out.extend(bytes[pos + 1..].iter()); },                                        // delete a character
+                1 => { out.push_str(*rng.pick(&SOUP)); out.extend(bytes[pos..].iter()); },              // insert a token
+                2 => { out.push_str(*rng.pick(&["?", ":", "(", ")", ",", "-", "!", "~", "++", "--", "@", "=", "."])); out.extend(bytes[pos..].iter()); },
+                3 => { out.push(' '); out.extend(bytes[pos..].iter()); },                              // split
+                _ => { if pos + 1 < bytes.len() { out.push(bytes[pos + 1]); out.push(bytes[pos]); out.extend(bytes[pos + 2..].iter()); } else { out.extend(bytes[pos..].iter()); } },
+            }
+            t = out;
+        }
+        let r = parse_expr(&t);
+        *hist.entry(match &r { PR::Ok(_) => "parse_ok", PR::Err => "parse_error", PR::Panic(_) => "parse_panic" }).or_insert(0) += 1;
+        if let PR::Panic(p) = &r { oracle_fail("c08-parser-panic", p, &t, &t); }
+        println!("PARSE\tKParse {} {} {}\t{}", float_token_tab(&t), cs(&t), cpr(&r, cexpr), one_line(&t));
+    }
+    println!("STATS\tmutants={}\thist={:?}", n, hist);
+}
+
+/// replay / corpus: one source text through parse -> print at every width -> parse
+fn text_mode(path: &str) {
+    let text = std::fs::read_to_string(path).expect("read");
+    let kind = if path.ends_with(".expr") { "expr" } else if path.ends_with(".stmt") { "stmt" } else { "file" };
+    let fail = |w: usize, why: &str, t: &str| oracle_fail("c08-roundtrip:text", &format!("{} (width {})", why, w), &text, t);
+    for &w in WIDTHS.iter() {
+        match kind {
+            "expr" => match parse_expr(&text) { PR::Ok(e) => { if let Ok(t) = print_with(&Sup(&to_expr(&e)), w) { if !oracle_expr(&e, true, w, &t) {} } }, _ => { println!("REJECTED\tparse"); return; } },
+            "stmt" => match parse_stmt(&text) {
+                PR::Ok(s) => match print_with(&to_stmt(&s), w) { Ok(t) => match parse_stmt(&t) { PR::Ok(b) if fold_stmt(&b) == fold_stmt(&s) => {}, _ => fail(w, "the printed statement does not read back", &t) }, Err(m) => fail(w, &m, "") },
+                _ => { println!("REJECTED\tparse"); return; } },
+            _ => match parse_file(&text) {
+                PR::Ok(f) => match print_with(&to_file(&f), w) { Ok(t) => match parse_file(&t) { PR::Ok(b) if fold_file(&b) == fold_file(&f) => {}, _ => fail(w, "the printed file does not read back", &t) }, Err(m) => fail(w, &m, "") },
+                _ => { println!("REJECTED\tparse"); return; } },
+        }
+    }
+    println!("STATS\ttext={}", kind);
+}
+
 fn main() {
     let args: Vec<String> = std::env::args().collect();
     truth::setup_for_test_harness();
+    let mut rng = Rng::new(seed_from_env());
+    let num = |i: usize, d: usize| args.get(i).and_then(|s| s.parse::<usize>().ok()).unwrap_or(d);
+    let all = args.iter().any(|a| a == "allwidths");
     match args.get(1).map(|s| s.as_str()) {
         Some("probe") => probe(),
         Some("lexlines") => { use std::io::BufRead; for l in std::io::stdin().lock().lines() { let l = l.unwrap(); let t = l.replace("\\n", "\n"); println!("{:?} => {:?} parse={:?}", t, lex_real(&t), parse_expr(&t)); } },
-        _ => { eprintln!("usage: c08 lits|exprs|stmts|soup|mutate|floats|text|probe"); std::process::exit(2); },
+        Some("lits") => lits(&mut rng, num(2, 8)),
+        Some("floats") => floats(&mut rng, num(2, 6000), num(3, 40)),
+        Some("exprs") => exprs(&mut rng, num(2, 100), all, num(3, 2)),
+        Some("stmts") => stmts(&mut rng, num(2, 100), all, num(3, 2)),
+        Some("soup") => soup(&mut rng, num(2, 100)),
+        Some("mutate") => mutate(&mut rng, num(2, 100)),
+        Some("text") => text_mode(&args[2]),
+        _ => { eprintln!("usage: c08 lits [extra] | floats <n> <every> | exprs <n> <coqwidths> [allwidths] | stmts <n> <coqwidths> [allwidths] | soup <n> | mutate <n> | text <file> | probe"); std::process::exit(2); },
     }
 }
